@@ -7,12 +7,13 @@ PROP = dict(
           "lengths), every 0/1 mask (and masks using 2/-1 as 'true') of the right length plus wrong lengths (masked reference read, write through "
           "by index/slice/array/mask, mask-indexed scalar and array stores with full-length, reduced-length and wrong-length sources, ifelse), and "
           "every write form on a read-only array, its masked references, aliases, element references and component views; each result is compared "
-          "with the same operation on a Python list. A case is distinct by (class, length, index/slice/mask); all are non-trivial (they select). "
+          "with the same operation on a Python list; the index and mask groups run a second time on strided component views (IntArray = V3iArray.y, "
+          "V2iArray = Box2iArray.min, FloatArray = QuatfArray.r, ... 10 view kinds) both as the array under test and as the source of assignments. A case is distinct by (class, length, index/slice/mask); all are non-trivial (they select). "
           "(2) c19_seq: random 40-step operation sequences per class over a pool of arrays, aliases, masked references, element references and "
           "slice copies derived from one another (get/set/mask/makeReadOnly/in-place +,-/ifelse/release+gc), every live object compared with an "
           "alias-tracking model after every step; distinct by hash of the executed trace. (3) c19_nd: FixedArray2D (5 classes), FixedMatrix (3) and "
           "FixedVArray (4) against nested lists for every integer index and forward slice per dimension over sizes 0..3 (0..4), masks, 1-D and "
-          "2-D sources, wrong shapes and malformed indices. (4) c19_life: every kind of view in chains owner->view->view with the owners released "
+          "2-D sources (variable-array rows from dense, strided-view and masked-reference sources), wrong shapes and malformed indices. (4) c19_life: every kind of view in chains owner->view->view with the owners released "
           "in every order, gc and allocator churn in between, then read/written. (5) c19_buffer: StringArray/WstringArray store/readback "
           "histories; memoryview export of every exporting class (nbytes, shape, bytes, readonly, write-through, writable requests on read-only "
           "arrays, strided component views); ...ArrayFromBuffer with array.array sources of all 12 typecodes x shapes x lengths."),
